@@ -916,8 +916,22 @@ def replay_one(path):
         print("re-run with the same seed: %s" % ("rejected after %d events" % rej[1] if rej else "accepted"))
         return 1 if rej else 0
     if kind == "construct_vs":
-        print("sample:", case["sample"])
-        return 1
+        from collections import namedtuple
+        from polyply.src.virtual_site_builder import construct_vs
+        smp = case["sample"]
+        sec, func = smp["kind"].split("/")
+        xs = [np.array(x, float) for x in smp["raw"]["x"]]
+        inter = namedtuple("Interaction", "atoms parameters meta")(tuple(range(len(xs) + 1)), [func] + [repr(p) for p in smp["raw"]["params"]], {})
+        got = np.asarray(construct_vs(sec, inter, {j + 1: x for j, x in enumerate(xs)} | {0: np.zeros(3)}), float)
+        exp = gm.construct(sec, func, xs, smp["raw"]["params"])
+        print("construct_vs %s: code %s, GROMACS formula %s" % (smp["kind"], got.tolist(), exp.tolist()))
+        return 0 if np.abs(got - exp).max() <= 1e-9 else 1
+    if kind == "optimize_geometry":
+        raw = case["sample"]["raw"]
+        part = _opt_chunk((raw["seed"], raw["i"] + 1, str(c.workdir("C15", "replay_opt"))))
+        o = part[raw["i"]]
+        print("optimize_geometry sample: success=%s targets_ok=%s worst=%s" % (o["success"], o["targets_ok"], o["raw"].get("worst")))
+        return 1 if o["success"] and not o["targets_ok"] else 0
     return 2
 
 
